@@ -16,7 +16,7 @@ ASSUMPTIONS = ["a fragment on the wire is identified with the submitted packet t
 RULE = ("send histories of all modes with flush budgets that cut packets across flushes (low ceilings), acks arriving between the fragments of one packet, loss, all cadences; "
         "oracle on the emitted data frames: every fragment of an Unreliable/TimeSensitive packet appears at most once; a TimeSensitive packet none of whose fragments was "
         "emitted in the flush following its submission never appears; no fragment of any packet appears after the sender's packet window base has moved past the packet. "
-        "Non-trivial: a multi-fragment packet was cut across flushes or a fragment was resent. Distinct by (modes seen, cuts, resends, windows).")
+        "Non-trivial: a multi-fragment packet was cut across flushes or a fragment was resent. Distinct by (modes seen, cuts, resends, windows). Round-6 family: Persistent / Reliable packets of 33-70 fragments, partially acknowledged, single fragments lost.")
 
 def streams(rng, tier, ctx):
     n = 24 if tier == "quick" else 500
